@@ -76,7 +76,7 @@ def rule_api(rep, results, entry_label=None):
     seen = set()
     for res in results:
         for ev in res.events("ext_attr", "ext_call"):
-            dotted = ev.d["dotted"]
+            dotted = ev.d.get("raw") or ev.d["dotted"]
             if ev.kind == "ext_call" and ev.d.get("method"):
                 continue
             if dotted.startswith(PSEUDO) or dotted.split(".")[0] in ("pint", "dreye"):
@@ -88,12 +88,15 @@ def rule_api(rep, results, entry_label=None):
             ok = ext_resolves(dotted)
             if not ok:
                 # alternatives of a guarded import (try: from a import x / except ImportError: from b import x)
-                alts = []
                 for local, al in ev.fn.module.imports.items():
+                    if len(al) < 2:
+                        continue            # only guarded imports have alternatives
                     ds = [(a[1] + "." + a[2]) if a[0] == "from" else a[1] for a in al]
-                    if any(dotted == d or dotted.startswith(d + ".") for d in ds):
-                        alts = ds
-                ok = any(ext_resolves(d) for d in alts if d != dotted)
+                    for d in ds:
+                        if dotted == d or dotted.startswith(d + "."):
+                            suffix = dotted[len(d):]
+                            if any(ext_resolves(o + suffix) for o in ds if o != d):
+                                ok = True
             if not ok and _guarded(ev):
                 ok = True
             rep.check("R-API", dotted, ok, where=ev.loc, construct=ev.text(), entry=entry_label or res.entry,
